@@ -40,14 +40,10 @@ Definition Q2 : list txrec := [q1; q2].
 
 Definition cfg_async : cfg :=
   {| c_ext := false; c_maxActive := 1000; c_maxKeyLen := 1024; c_maxValueLen := 4096;
-     c_maxTxEntries := 1024; c_embedded := false |}.
+     c_maxTxEntries := 1024 |}.
 Definition cfg_sync : cfg :=
   {| c_ext := true; c_maxActive := 1000; c_maxKeyLen := 1024; c_maxValueLen := 4096;
-     c_maxTxEntries := 1024; c_embedded := false |}.
-Definition cfg_embedded : cfg :=
-  {| c_ext := true; c_maxActive := 1000; c_maxKeyLen := 1024; c_maxValueLen := 4096;
-     c_maxTxEntries := 1024; c_embedded := true |}.
-
+     c_maxTxEntries := 1024 |}.
 (* ---- premises are satisfiable ---- *)
 Example primary_valid_sat : primary_valid Hs P3 = true /\ primary_valid Hs Q2 = true.
 Proof. vm_compute. repeat split. Qed.
@@ -189,10 +185,11 @@ Theorem uncovered_fields_accepted :
   fst (offer cfg_sync false P3 2 alt_value_only) = false.
 Proof. vm_compute. repeat split. Qed.
 
-(* a replica with embedded values forgets its precommitted backlog when it is reopened *)
-Theorem restart_durable_refuted :
-  let st := run Hs cfg_embedded P3 [ADeliver false 0 false; ADeliver false 1 false] in
-  pre_id st = 2 /\ pre_id (restart Hs cfg_embedded st) = 0.
+(* a reopened replica takes its precommitted backlog back (before /repo b814f8c a store with embedded
+   values lost it: the reload loop did not skip the values prefix; the model had a flag for that) *)
+Example restart_keeps_backlog :
+  let st := run Hs cfg_sync P3 [ADeliver false 0 false; ADeliver false 1 false] in
+  pre_id st = 2 /\ map t_alh (chain (restart Hs cfg_sync st)) = map t_alh (chain st).
 Proof. vm_compute. split; reflexivity. Qed.
 
 (* ---- premises of altered_rejected_partial are satisfiable (the genuine export itself) ---- *)
